@@ -290,78 +290,103 @@ def rule_round(prog: Program, modules: Set[str]) -> List[Instance]:
 # ---------------------------------------------------------------------------------------------
 
 
+def _last_defs(fi: FuncInfo, name: str, before: Optional[ast.AST] = None) -> List[ast.AST]:
+    """Values assigned to ``name`` (positional match through tuple = tuple), in source order."""
+    out: List[ast.AST] = []
+    for n in walk_own(fi.node):
+        if isinstance(n, ast.Assign):
+            t = n.targets[0]
+            if isinstance(t, ast.Name) and t.id == name:
+                out.append(n.value)
+            elif isinstance(t, ast.Tuple) and isinstance(n.value, ast.Tuple) and len(t.elts) == len(n.value.elts):
+                for e, v in zip(t.elts, n.value.elts):
+                    if isinstance(e, ast.Name) and e.id == name:
+                        out.append(v)
+    return out
+
+
+def _slice_bounds(fi: FuncInfo) -> List[Tuple[ast.AST, ast.AST, ast.AST]]:
+    """(node, lower, upper) for every slice(a, b) call and a:b slice expression with both bounds."""
+    out = []
+    for n in walk_own(fi.node):
+        if isinstance(n, ast.Call) and call_name(n) == "slice" and isinstance(n.func, ast.Name) and len(n.args) >= 2:
+            out.append((n, n.args[0], n.args[1]))
+        elif isinstance(n, ast.Slice) and n.lower is not None and n.upper is not None:
+            out.append((n, n.lower, n.upper))
+    return out
+
+
+def _is_clamp(e: ast.AST, fn: str, fi: FuncInfo, depth: int = 0) -> Optional[ast.Call]:
+    """e is (or is a local last assigned from) a two-argument max()/min() call."""
+    if isinstance(e, ast.Call) and call_name(e) == fn and len(e.args) == 2:
+        return e
+    if isinstance(e, ast.Name) and depth < 2:
+        ds = _last_defs(fi, e.id)
+        if ds:
+            return _is_clamp(ds[-1], fn, fi, depth + 1)
+    return None
+
+
 def rule_clamps(prog: Program) -> List[Instance]:
-    """Clamp roles: interval starts through max(0, .), stops through min(N, .)."""
+    """Clamp roles: interval starts are clamped from below (max(0, .)), stops from above
+    (min(N, .)); a pixel/tile count is at least one.  Bounds are located through the slice
+    they end up in, never by variable name."""
     out: List[Instance] = []
-    # roi_pad.pad_slice
-    f = prog.func("roi:roi_pad/pad_slice")
-    for n in walk_own(f.node):
-        if isinstance(n, ast.Call) and call_name(n) == "slice" and len(n.args) == 2:
-            a, b = n.args
-            ok_a = isinstance(a, ast.Call) and call_name(a) == "max" and any(const_num(x) == 0 for x in a.args) and any("start" in short(x) and "- pad" in short(x) for x in a.args)
-            ok_b = isinstance(b, ast.Call) and call_name(b) == "min" and any(short(x) == "n" for x in b.args) and any("stop" in short(x) and "+ pad" in short(x) for x in b.args)
-            out.append(Instance("R-ROUND", f"{f.qual}#clamp:start", OK if ok_a else BAD, "start = max(0, start - pad)" if ok_a else f"padded start is `{short(a)}`", f.where(n)))
-            out.append(Instance("R-ROUND", f"{f.qual}#clamp:stop", OK if ok_b else BAD, "stop = min(n, stop + pad)" if ok_b else f"padded stop is `{short(b)}`", f.where(n)))
-    # Tiles.__getitem__._slice: slice(_in, min(_out, N)), guard 0 <= _in < N and _out < N + n
-    f = prog.func("roi:Tiles.__getitem__/_slice")
-    for n in walk_own(f.node):
-        if isinstance(n, ast.Return) and isinstance(n.value, ast.Call) and call_name(n.value) == "slice":
-            a, b = n.value.args[:2]
-            ok = short(a) == "_in" and isinstance(b, ast.Call) and call_name(b) == "min" and {short(x) for x in b.args} == {"_out", "N"}
-            out.append(Instance("R-ROUND", f"{f.qual}#clamp:last-tile", OK if ok else BAD, "tile = slice(_in, min(_out, N))" if ok else f"tile slice is `{short(n.value)}`", f.where(n)))
-        if isinstance(n, ast.Assign) and short(n.targets[0]) in ("_in", "_out"):
-            want = {"_in": "i.start * n", "_out": "i.stop * n"}[short(n.targets[0])]
-            ok = short(n.value) == want
-            out.append(Instance("R-ROUND", f"{f.qual}#{short(n.targets[0])}", OK if ok else BAD, f"{short(n.targets[0])} = {want}" if ok else f"`{short(n)}`", f.where(n)))
-        if isinstance(n, ast.If) and isinstance(n.test, ast.BoolOp):
-            t = short(n.test).replace(" ", "")
-            ok = t == "0<=_in<Nand_out<N+n"
-            out.append(Instance("R-ROUND", f"{f.qual}#index-validation", OK if ok else BAD, "0 <= _in < N and _out < N + n" if ok else f"index validation is `{short(n.test)}`", f.where(n)))
-    # GeoboxTiles.range_from_bbox._clamp: floor->[0,N-1] ; ceil->[1,N] then -1
-    f = prog.func("geobox:GeoboxTiles.range_from_bbox/_clamp")
-    for n in walk_own(f.node):
-        if isinstance(n, ast.Assign) and short(n.targets[0]) in ("a1", "a2"):
-            v = short(n.value).replace(" ", "")
-            if short(n.targets[0]) == "a1" and "clamp" in v:
-                ok = v == "int(clamp(math.floor(a1),0,N-1))"
-                out.append(Instance("R-ROUND", f"{f.qual}#clamp:first", OK if ok else BAD, "first pixel = clamp(floor(a1), 0, N-1)" if ok else f"`{short(n)}`", f.where(n)))
-            if short(n.targets[0]) == "a2" and "clamp" in v:
-                ok = v == "int(clamp(math.ceil(a2),1,N))-1"
-                out.append(Instance("R-ROUND", f"{f.qual}#clamp:last", OK if ok else BAD, "last pixel = clamp(ceil(a2), 1, N) - 1" if ok else f"`{short(n)}`", f.where(n)))
-    # range_from_bbox: inclusive tile range -> range(y1, y2 + 1)
-    f = prog.func("geobox:GeoboxTiles.range_from_bbox")
-    for n in walk_own(f.node):
-        if isinstance(n, ast.Return) and isinstance(n.value, ast.Tuple):
-            t = [short(e).replace(" ", "") for e in n.value.elts]
-            ok = t == ["range(y1,y2+1)", "range(x1,x2+1)"]
-            out.append(Instance("R-ROUND", f"{f.qual}#inclusive-range", OK if ok else BAD, "rows range(y1, y2+1), cols range(x1, x2+1)" if ok else f"tile ranges are {t}", f.where(n)))
-    # GeoBox.overlap_roi: max(0, .) on starts, min(., n) on stops, same axis
-    f = prog.func("geobox:GeoBox.overlap_roi")
-    seen = {}
-    for n in walk_own(f.node):
-        if isinstance(n, ast.Assign) and isinstance(n.targets[0], ast.Tuple) and isinstance(n.value, ast.Tuple) and all(isinstance(v, ast.Call) and call_name(v) in ("max", "min") for v in n.value.elts):
-            for t, v in zip(n.targets[0].elts, n.value.elts):
-                seen[short(t)] = (call_name(v), {short(a) for a in v.args})
-    want = {"x0": ("max", {"0", "x0"}), "y0": ("max", {"0", "y0"}), "x1": ("min", {"x1", "nx"}), "y1": ("min", {"y1", "ny"})}
-    for k, w in want.items():
-        ok = seen.get(k) == w
-        out.append(Instance("R-ROUND", f"{f.qual}#clamp:{k}", OK if ok else BAD, f"{k} = {w[0]}({', '.join(sorted(w[1]))})" if ok else f"{k} clamped as {seen.get(k)}", f.where()))
-    # scaled_up_roi clamp
-    f = prog.func("roi:scaled_up_roi")
-    for n in walk_own(f.node):
-        if isinstance(n, ast.Call) and call_name(n) == "slice" and len(n.args) == 2 and all(isinstance(a, ast.Call) and call_name(a) == "min" for a in n.args):
-            ok = {short(x) for x in n.args[0].args} == {"dim", "s.start"} and {short(x) for x in n.args[1].args} == {"dim", "s.stop"}
-            out.append(Instance("R-ROUND", f"{f.qual}#clamp:shape", OK if ok else BAD, "both ends clamped to the image size" if ok else f"`{short(n)}`", f.where(n)))
-        if isinstance(n, ast.Call) and call_name(n) == "slice" and len(n.args) == 2 and all(isinstance(a, ast.BinOp) and isinstance(a.op, ast.Mult) for a in n.args):
-            ok = [short(a).replace(" ", "") for a in n.args] == ["s.start*scale", "s.stop*scale"]
-            out.append(Instance("R-ROUND", f"{f.qual}#scale", OK if ok else BAD, "start*scale, stop*scale" if ok else f"`{short(n)}`", f.where(n)))
-    # minimum one pixel / tile
-    for q, names in (("math:_snap_edge_pos", ["nx"]), ("math:snap_grid", ["nx"]), ("geobox:GeoBoxBase.compute_zoom_out", ["ny", "nx"])):
-        f = prog.func(q)
-        hit = 0
+    targets = [
+        ("roi:roi_pad/pad_slice", "both", "padded slice stays inside [0, n]"),
+        ("roi:Tiles.__getitem__/_slice", "upper", "last tile is cut at the image size"),
+        ("geobox:GeoBox.overlap_roi", "both", "overlap region stays inside the first operand"),
+        ("roi:scaled_up_roi", "shape", "up-scaled region is clamped to the supplied shape"),
+    ]
+    for q, mode, what in targets:
+        f = prog.maybe_func(q)
+        if f is None:
+            out.append(Instance("R-ROUND", f"{q}#clamp", UNDET, "function not found", ""))
+            continue
+        sb = _slice_bounds(f)
+        if mode == "shape":
+            # the clamped variant: both bounds are min(dim, .)
+            cl = [(n, lo, hi) for n, lo, hi in sb if _is_clamp(lo, "min", f) is not None or _is_clamp(hi, "min", f) is not None]
+            ok = bool(cl) and all(_is_clamp(lo, "min", f) is not None and _is_clamp(hi, "min", f) is not None for _, lo, hi in cl)
+            out.append(Instance("R-ROUND", f"{q}#clamp:shape", OK if ok else BAD, what if ok else "when a shape is supplied, both ends of the up-scaled slice must be min(dim, .)", f.where()))
+            continue
+        if not sb:
+            out.append(Instance("R-ROUND", f"{q}#clamp", UNDET, "no slice found", f.where()))
+            continue
+        for k, (n, lo, hi) in enumerate(sb):
+            sfx = f":{k}" if len(sb) > 1 else ""
+            if mode == "both":
+                c = _is_clamp(lo, "max", f)
+                ok = c is not None and any(const_num(a) == 0 for a in c.args)
+                out.append(Instance("R-ROUND", f"{q}#clamp:start{sfx}", OK if ok else BAD, f"start is max(0, .): {what}" if ok else f"slice start `{short(lo)}` is not clamped with max(0, .)", f.where(n)))
+            c = _is_clamp(hi, "min", f)
+            ok = c is not None
+            if ok and mode == "both":
+                # the other operand of min() is an extent (a parameter / shape component), not a constant
+                ok = not any(const_num(a) is not None for a in c.args)
+            out.append(Instance("R-ROUND", f"{q}#clamp:stop{sfx}", OK if ok else BAD, f"stop is min(extent, .): {what}" if ok else f"slice stop `{short(hi)}` is not clamped with min(extent, .)", f.where(n)))
+    # range_from_bbox._clamp: the floored start is clamped from below by 0, the ceiled stop from above by N
+    f = prog.maybe_func("geobox:GeoboxTiles.range_from_bbox/_clamp")
+    if f is not None:
+        Np = f.param_names()[-1]
         for n in walk_own(f.node):
-            if isinstance(n, ast.Call) and call_name(n) == "max" and any(const_num(a) == 1 for a in n.args):
-                hit += 1
-        need = 2 if q == "math:snap_grid" else 1
-        out.append(Instance("R-ROUND", f"{q}#at-least-one-pixel", OK if hit >= need else BAD, "pixel count is max(1, .)" if hit >= need else "pixel count is no longer forced to at least 1", f.where()))
+            if isinstance(n, ast.Call) and call_name(n) in ("clamp", "clip") and len(n.args) == 3:
+                inner = {call_name(x) for x in ast.walk(n.args[0]) if isinstance(x, ast.Call)}
+                if "floor" in inner:
+                    ok = const_num(n.args[1]) == 0 and Np in names_in(n.args[2])
+                    out.append(Instance("R-ROUND", f"{f.qual}#clamp:first", OK if ok else BAD, f"first pixel clamped to [0, {Np}-..]" if ok else f"`{short(n)}`: first pixel is not clamped between 0 and the image size", f.where(n)))
+                if "ceil" in inner:
+                    ok = Np in names_in(n.args[2]) and const_num(n.args[2]) is None
+                    out.append(Instance("R-ROUND", f"{f.qual}#clamp:last", OK if ok else BAD, f"last pixel clamped from above by {Np}" if ok else f"`{short(n)}`: last pixel is not clamped by the image size", f.where(n)))
+    # minimum one pixel: every COUNT produced by ceil in these helpers goes through max(1, .)
+    for q in ("math:_snap_edge_pos", "math:snap_grid", "geobox:GeoBoxBase.compute_zoom_out"):
+        f = prog.maybe_func(q)
+        if f is None:
+            continue
+        ceils = [n for n in walk_own(f.node) if isinstance(n, ast.Call) and call_name(n) == "ceil"]
+        maxes = [n for n in walk_own(f.node) if isinstance(n, ast.Call) and call_name(n) == "max" and any(const_num(a) == 1 for a in n.args)]
+        # each count-ceil (not the interval stop in _snap_edge_pos, which feeds a difference) needs one max(1, .)
+        need = len(ceils) if q != "math:_snap_edge_pos" else 1
+        ok = len(maxes) >= need
+        out.append(Instance("R-ROUND", f"{q}#at-least-one-pixel", OK if ok else BAD, "pixel count is max(1, .)" if ok else "a pixel count is no longer forced to at least 1", f.where()))
     return out
